@@ -192,6 +192,18 @@ func runC16(c *Ctx) {
 			cas := rf.CallOnField(inflight, "CompareAndSwap")
 			w = rf.AfterEdgesMayReach(limit, nil, rf.loopBackEdges(), cas)
 			c.Check(w == nil && len(limit) > 0, recv+".register/limit", "at the in-flight limit registration fails instead of counting the request", c.P.Pos(reg.Decl.Pos()), rf.describe(w))
+			// a failing registration leaves both counters untouched: once a counter was incremented no error return is reachable
+			// (callers do not deregister a request whose registration failed, and deregister only undoes tracked requests)
+			errRet := func(n ast.Node) bool {
+				r, ok := n.(*ast.ReturnStmt)
+				return ok && len(r.Results) == 1 && !isNilIdent(rf.Info, r.Results[0])
+			}
+			counted := append(rf.Find(bInc), rf.Find(rf.CallOnField(inflight, "Inc"))...)
+			w = rf.search(searchSpec{starts: counted, target: errRet})
+			c.Check(w == nil && len(counted) >= 2, recv+".register/counted⇒succeeds", "after blockingCount or inFlightCount was incremented the registration cannot fail any more (a rejected request leaves no count behind)", c.P.Pos(reg.Decl.Pos()), rf.describe(w))
+			casOK := rf.BoolEdges(func(e ast.Expr) bool { call, ok := e.(*ast.CallExpr); return ok && cas(call) }, true)
+			w = rf.search(searchSpec{startEdges: edgeList(casOK), target: errRet})
+			c.Check(w == nil, recv+".register/admitted⇒succeeds", "after the in-flight slot was taken by the CAS the registration cannot fail any more", c.P.Pos(reg.Decl.Pos()), rf.describe(w))
 		}
 		// last blocking decrement resumes the stash (PID)
 		dereg := c.Func("actor", "PID.deregisterRequestState")
